@@ -667,6 +667,22 @@ Proof.
 Qed.
 
 (* with a complete private state, decap always finds its ciphertext *)
+Theorem complete_decap_finds_ciphertext_res t me pr k excl id leafkey :
+  shape_ok t -> Complete t me pr ->
+  resolution_of t (lvl_node (N.of_nat k) me) = Ok (reso_spec t k (me / 2 ^ N.of_nat k)) ->
+  get t (2 * me) = Some (Leaf id) -> ~ In me excl ->
+  nth_error pr O = Some (Some leafkey) ->
+  exists i key, decap_select t me pr k excl = Ok (Some (i, key)).
+Proof.
+  intros Sh C R Gl Nx K0. eapply decap_select_complete_res; try eassumption.
+  cbn zeta. destruct (Nat.eq_dec (down t me k) 0) as [Z|NZ]; [left; rewrite Z; eexists; exact K0|].
+  pose proof (down_nonblank t me k NZ) as Nb.
+  destruct (get t (lvl_node (N.of_nat (down t me k)) me)) as [[x|um]|] eqn:G; [|clear Nb|congruence].
+  - exfalso. specialize (Sh (lvl_node (N.of_nat (down t me k)) me)). rewrite G in Sh. cbn [kind_ok] in Sh.
+    rewrite lvl_node_odd in Sh by lia. discriminate.
+  - destruct (C (down t me k) um ltac:(lia) G) as [H|H]; [left; exact H|right; exists um; split; [reflexivity|exact H]].
+Qed.
+
 Theorem complete_decap_finds_ciphertext t me pr k excl id leafkey :
   shape_ok t -> Complete t me pr ->
   (k <= 29)%nat -> lvl_node (N.of_nat k) me < tlen t ->
@@ -674,13 +690,8 @@ Theorem complete_decap_finds_ciphertext t me pr k excl id leafkey :
   nth_error pr O = Some (Some leafkey) ->
   exists i key, decap_select t me pr k excl = Ok (Some (i, key)).
 Proof.
-  intros Sh C Lk B Gl Nx K0. eapply decap_select_complete; try eassumption.
-  cbn zeta. destruct (Nat.eq_dec (down t me k) 0) as [Z|NZ]; [left; rewrite Z; eexists; exact K0|].
-  pose proof (down_nonblank t me k NZ) as Nb.
-  destruct (get t (lvl_node (N.of_nat (down t me k)) me)) as [[x|um]|] eqn:G; [|clear Nb|congruence].
-  - exfalso. specialize (Sh (lvl_node (N.of_nat (down t me k)) me)). rewrite G in Sh. cbn [kind_ok] in Sh.
-    rewrite lvl_node_odd in Sh by lia. discriminate.
-  - destruct (C (down t me k) um ltac:(lia) G) as [H|H]; [left; exact H|right; exists um; split; [reflexivity|exact H]].
+  intros Sh C Lk B Gl Nx K0. eapply complete_decap_finds_ciphertext_res; try eassumption.
+  unfold lvl_node. apply resolution_of_spec; assumption.
 Qed.
 
 (* ---- own update: after the proposals the member's whole direct path is blank ---- *)
